@@ -44,6 +44,30 @@ fn main() {
     if d.resolve_method("did:example:other#gp", None).is_some() { return Err("a full id of another DID with the same fragment resolved".into()); }
     Ok(())
   });
+  w("cd_insert_method_scope_exact", || {
+    use identity_core::convert::ToJson;
+    use identity_verification::VerificationMethod;
+    let mk = |frag: &str| VerificationMethod::from_json(&jwk_method("did:example:doc", frag)).unwrap();
+    let scopes: Vec<(MethodScope, &str)> = std::iter::once((MethodScope::VerificationMethod, "verificationMethod")).chain(RELS.iter().map(|(r, n)| (MethodScope::VerificationRelationship(*r), *n))).collect();
+    for (scope, name) in &scopes {
+      let mut d = doc();
+      let before: serde_json::Value = serde_json::from_str(&d.to_json().unwrap()).unwrap();
+      d.insert_method(mk("new"), *scope).map_err(|e| format!("insert under {name}: {e}"))?;
+      let after: serde_json::Value = serde_json::from_str(&d.to_json().unwrap()).unwrap();
+      for (_, other) in &scopes {
+        let (b, a) = (before[other].as_array().map(|x| x.len()).unwrap_or(0), after[other].as_array().map(|x| x.len()).unwrap_or(0));
+        if a != b + (other == name) as usize { return Err(format!("insert_method(.., {name}): collection {other} went from {b} to {a} entries")); }
+      }
+      if d.resolve_method("#new", Some(*scope)).is_none() { return Err(format!("method inserted under {name} does not resolve under that scope")); }
+      // a second insertion of the same id, under any scope, is refused and changes nothing
+      for (scope2, name2) in &scopes {
+        let snap = d.to_json().unwrap();
+        if d.insert_method(mk("new"), *scope2).is_ok() { return Err(format!("duplicate id accepted under {name2}")); }
+        if d.to_json().unwrap() != snap { return Err(format!("refused insertion under {name2} changed the document")); }
+      }
+    }
+    Ok(())
+  });
   w("cd_attach_detach_exact", || {
     for (rel, name) in RELS { for (rel2, name2) in RELS {
       let mut d = doc();
